@@ -12,6 +12,7 @@ import (
 	"go/token"
 	"go/types"
 	"os"
+	"reflect"
 	"strconv"
 	"strings"
 )
@@ -453,6 +454,7 @@ func (fc *FuncCtx) execFor(st *State, x *ast.ForStmt, label string) *State {
 	locs = append(locs, fc.clauseLocs(lc.Modifies)...)
 	h := st.clone()
 	fc.applyHavoc(h, locs)
+	fc.havocGhosts(h, x.Body, x.Post, x.Cond)
 	fc.ownLoopHead(h, locs)
 	fc.assumeInvariants(h, lc, pre, at, x)
 
@@ -485,7 +487,9 @@ func (fc *FuncCtx) execFor(st *State, x *ast.ForStmt, label string) *State {
 	tgt := &jumpTarget{label: label, isLoop: true}
 	fc.breakTargets = append(fc.breakTargets, tgt)
 	bodyStart := body.clone()
+	fc.loopFrames = append(fc.loopFrames, loopFrame{lc: lc, ord: ord, pre: pre, bodyStart: bodyStart, at: at})
 	end := fc.exec(body, x.Body)
+	fc.loopFrames = fc.loopFrames[:len(fc.loopFrames)-1]
 	fc.breakTargets = fc.breakTargets[:len(fc.breakTargets)-1]
 	end = fc.merge(append([]*State{end}, tgt.continues...))
 	if !end.dead {
@@ -672,6 +676,7 @@ func (fc *FuncCtx) execRange(st *State, x *ast.RangeStmt, label string) *State {
 	locs = append(locs, fc.clauseLocs(lc.Modifies)...)
 	h := st.clone()
 	fc.applyHavoc(h, locs)
+	fc.havocGhosts(h, x.Body)
 	idx := fc.fresh("range_i", tInt)
 	h.ghost[ghostName] = mkMath(idx.S)
 	h.ghost["range_i"] = mkMath(idx.S)
@@ -745,7 +750,9 @@ func (fc *FuncCtx) execRange(st *State, x *ast.RangeStmt, label string) *State {
 	tgt := &jumpTarget{label: label, isLoop: true}
 	fc.breakTargets = append(fc.breakTargets, tgt)
 	bodyStart := body.clone()
+	fc.loopFrames = append(fc.loopFrames, loopFrame{lc: lc, ord: ord, pre: pre, bodyStart: bodyStart, at: at})
 	end := fc.exec(body, x.Body)
+	fc.loopFrames = fc.loopFrames[:len(fc.loopFrames)-1]
 	fc.breakTargets = fc.breakTargets[:len(fc.breakTargets)-1]
 	end = fc.merge(append([]*State{end}, tgt.continues...))
 	if !end.dead {
@@ -1037,4 +1044,90 @@ func (fc *FuncCtx) execForUnrolled(st *State, x *ast.ForStmt, cv *types.Var, n i
 		cur.vars[cv] = Term{S: strconv.Itoa(n), T: cv.Type()}
 	}
 	return fc.merge(append([]*State{cur}, exits...))
+}
+
+// havocGhosts: at a loop head the ghost counters and "latest event" ghosts the body may change are unknown, like the
+// variables it assigns (otherwise an invariant that relates a counter to a loop variable would pin the head state to
+// the first iteration). Which ghosts the body may change is decided syntactically and conservatively: calls by
+// callee name (calls_<f>, <f>_err, <f>_<ghost output>), any send (sends_*, lastsent_*), any select (full_*), any call
+// (jslast); the bodies of repository functions without a contract (executed in place) and of function literals count.
+func (fc *FuncCtx) havocGhosts(h *State, nodes ...ast.Node) {
+	calls := map[string]bool{}
+	anySend, anySelect, anyCall, anyRecv := false, false, false, false
+	seen := map[string]bool{}
+	var scan func(n ast.Node, depth int)
+	scan = func(n ast.Node, depth int) {
+		if n == nil || reflect.ValueOf(n).IsNil() {
+			return
+		}
+		ast.Inspect(n, func(n ast.Node) bool {
+			switch x := n.(type) {
+			case *ast.SendStmt:
+				anySend = true
+			case *ast.SelectStmt:
+				anySelect = true
+			case *ast.UnaryExpr:
+				if x.Op == token.ARROW {
+					anyRecv = true
+				}
+			case *ast.CallExpr:
+				if tv, ok := fc.info.Types[x.Fun]; ok && tv.IsType() {
+					return true
+				}
+				anyCall = true
+				var id *ast.Ident
+				switch f := unparen(x.Fun).(type) {
+				case *ast.Ident:
+					id = f
+				case *ast.SelectorExpr:
+					id = f.Sel
+				}
+				if id == nil {
+					return true
+				}
+				calls[id.Name] = true
+				if fn, ok := fc.info.ObjectOf(id).(*types.Func); ok && depth < 5 {
+					key := fn.FullName()
+					if fc.w.Contracts[key] == nil && !seen[key] {
+						if decl := fc.w.FuncDecls[key]; decl != nil && decl.Body != nil {
+							seen[key] = true
+							if pkg := fc.w.FuncPkg[key]; pkg != nil {
+								saved := fc.info
+								fc.info = pkg.TypesInfo
+								scan(decl.Body, depth+1)
+								fc.info = saved
+							}
+						}
+					}
+				}
+			}
+			return true
+		})
+	}
+	for _, n := range nodes {
+		scan(n, 0)
+	}
+	for k, g := range h.ghost {
+		touched := false
+		switch {
+		case strings.HasPrefix(k, "range_"):
+		case strings.HasPrefix(k, "calls_"):
+			touched = calls[strings.TrimPrefix(k, "calls_")]
+		case strings.HasPrefix(k, "sends_"), strings.HasPrefix(k, "lastsent_"):
+			touched = anySend
+		case strings.HasPrefix(k, "recvs_"):
+			touched = anyRecv
+		case strings.HasPrefix(k, "full_"):
+			touched = anySelect
+		case k == "jslast":
+			touched = anyCall
+		default:
+			if i := strings.Index(k, "_"); i > 0 {
+				touched = calls[k[:i]]
+			}
+		}
+		if touched {
+			h.ghost[k] = fc.fresh("hg_"+sanitize(k), g.T)
+		}
+	}
 }
